@@ -57,6 +57,23 @@ fn sbits(t: &SignedNumType) -> usize {
     }
 }
 
+/// the size of a `[T; const { .. }]` array: the const expression over usize literals and usize consts, wrapping at
+/// 32 bits as compile.rs::resolve_const_expr_usize does (trusted glue of the exporter)
+fn const_usize(e: &ConstExpr, sizes: &HashMap<String, usize>) -> usize {
+    let wrap = |n: u64| (n & 0xffff_ffff) as usize;
+    match &e.0 {
+        ConstExprEnum::NumUnsigned(n, _) => *n as usize,
+        ConstExprEnum::NumSigned(n, _) => *n as usize,
+        ConstExprEnum::ExternalValue { party, identifier } => *sizes.get(&format!("{party}::{identifier}")).expect("const size"),
+        ConstExprEnum::ConstExprIdent(i) => *sizes.get(i).expect("const size"),
+        ConstExprEnum::Max(args) => args.iter().map(|a| const_usize(a, sizes)).max().unwrap_or(0),
+        ConstExprEnum::Min(args) => args.iter().map(|a| const_usize(a, sizes)).min().unwrap_or(usize::MAX),
+        ConstExprEnum::Add(a, b) => wrap((const_usize(a, sizes) as u64).wrapping_add(const_usize(b, sizes) as u64)),
+        ConstExprEnum::Sub(a, b) => wrap((const_usize(a, sizes) as u64).wrapping_sub(const_usize(b, sizes) as u64)),
+        ConstExprEnum::True | ConstExprEnum::False => panic!("harness: not a numeric const expr"),
+    }
+}
+
 impl<'a> Exporter<'a> {
     pub fn ty(&mut self, t: &Type) -> String {
         match t {
@@ -68,7 +85,10 @@ impl<'a> Exporter<'a> {
                 let n = *self.const_sizes.get(c).expect("const size");
                 format!("(arr {} {})", self.ty(e), n)
             }
-            Type::ArrayConstExpr(_, _) => panic!("harness: ArrayConstExpr not exported"),
+            Type::ArrayConstExpr(e, size) => {
+                let n = const_usize(size, self.const_sizes);
+                format!("(arr {} {})", self.ty(e), n)
+            }
             Type::Tuple(ts) => {
                 let v: Vec<String> = ts.iter().map(|t| self.ty(t)).collect();
                 format!("(tup {})", v.join(" "))
